@@ -188,6 +188,64 @@ def generate():
     fl, why = astlib.try_flag(no_param_stores)
     out.append("Definition no_verb_stores_into_operands : bool := %s.%s" % (astlib.coq_bool(bool(fl)), "" if why is None else "  (* %s *)" % why.replace("*)", "* )")))
 
+    def no_array_caches():
+        """no memo table in the value layer can hand the same mutable array to two evaluations: no cache decorators and no
+        module-level tables that functions store into, in backends/*.py, dyads.py, monads.py, types.py, parser.py"""
+        import glob
+        offenders = []
+        files = sorted(glob.glob(os.path.join(REPO, "klongpy", "backends", "*.py"))) + \
+            [os.path.join(REPO, "klongpy", f) for f in ("dyads.py", "monads.py", "types.py", "parser.py", "adverbs.py")]
+        for path in files:
+            rel = os.path.relpath(path, REPO)
+            if rel.endswith("registry.py"):
+                continue            # the table of backend classes by name: no values
+            m = astlib.module(rel)
+            tables = set()
+            for n in m.body:
+                if isinstance(n, ast.Assign) and len(n.targets) == 1 and isinstance(n.targets[0], ast.Name):
+                    v = n.value
+                    if isinstance(v, (ast.Dict, ast.List, ast.Set)) and not getattr(v, "keys", None) and not getattr(v, "elts", None):
+                        tables.add(n.targets[0].id)
+                    if isinstance(v, ast.Call) and ast.unparse(v.func) in ("dict", "list", "set", "collections.OrderedDict", "OrderedDict", "weakref.WeakValueDictionary"):
+                        tables.add(n.targets[0].id)
+            for fn in ast.walk(m):
+                if isinstance(fn, (ast.FunctionDef, ast.AsyncFunctionDef)):
+                    for d in fn.decorator_list:
+                        if "cache" in ast.unparse(d).lower():
+                            offenders.append("%s:%s @%s" % (rel, fn.name, ast.unparse(d)[:40]))
+                    for n in ast.walk(fn):
+                        if isinstance(n, (ast.Assign, ast.AugAssign)):
+                            tg = n.targets if isinstance(n, ast.Assign) else [n.target]
+                            for t in tg:
+                                if isinstance(t, ast.Subscript) and isinstance(t.value, ast.Name) and t.value.id in tables:
+                                    offenders.append("%s:%s stores into module table %s" % (rel, fn.name, t.value.id))
+                        if isinstance(n, ast.Call) and isinstance(n.func, ast.Attribute) and isinstance(n.func.value, ast.Name) \
+                                and n.func.value.id in tables and n.func.attr in ("setdefault", "append", "add", "update", "insert", "extend"):
+                            offenders.append("%s:%s %s.%s" % (rel, fn.name, n.func.value.id, n.func.attr))
+        if offenders:
+            raise ShapeError("memo tables / caches: " + "; ".join(sorted(set(offenders))[:4]))
+        return True
+    fl, why = astlib.try_flag(no_array_caches)
+    out.append("Definition no_array_caches_in_backends : bool := %s.%s" % (astlib.coq_bool(bool(fl)), "" if why is None else "  (* %s *)" % why.replace("*)", "* )")))
+
+    def module_threaded():
+        """every call of the lexeme readers that can meet a symbol passes the active module on"""
+        bad = []
+        for rel in ("klongpy/parser.py", "klongpy/interpreter.py"):
+            m = astlib.module(rel)
+            for c in ast.walk(m):
+                if isinstance(c, ast.Call):
+                    nm = c.func.id if isinstance(c.func, ast.Name) else (c.func.attr if isinstance(c.func, ast.Attribute) else "")
+                    if nm in ("kg_read", "kg_read_array", "read_list", "read_sym"):
+                        kws = [k.arg for k in c.keywords]
+                        if "module" not in kws and None not in kws:
+                            bad.append("%s line %d: %s" % (rel, c.lineno, ast.unparse(c)[:50]))
+        if bad:
+            raise ShapeError("reader called without module: " + "; ".join(bad[:3]))
+        return True
+    fl, why = astlib.try_flag(module_threaded)
+    out.append("Definition module_threaded_through_reader : bool := %s.%s" % (astlib.coq_bool(bool(fl)), "" if why is None else "  (* %s *)" % why.replace("*)", "* )")))
+
     def parse_key():
         m = astlib.module("klongpy/interpreter.py")
         cls = astlib.find_class(m, "KlongInterpreter")
